@@ -140,10 +140,12 @@ def _error_code(call):
         seen += 1
         nxt = []
         for r in roots:
+            found = sorted(set(last(p["res"].get("ctor_of", "")) for p in hir.nodes(r, "Path")
+                               if p["res"].get("ctor_of", "").startswith("lsp4spl::error::ErrorCode::")))
+            if found:
+                # a conditional argument (`if is_initialize { InvalidRequest } else { ServerNotInitialized }`) yields both
+                return "|".join(found)
             for p in hir.nodes(r, "Path"):
-                co = p["res"].get("ctor_of", "")
-                if co.startswith("lsp4spl::error::ErrorCode::"):
-                    return last(co)
                 if p["res"].get("k") == "Local" and body is not None:
                     for l in hir.nodes(body["body"], "Let"):
                         if l.get("init") is not None and any(bd["id"] == p["res"]["id"] for bd in hir.pat_bindings(l["pat"])):
@@ -266,6 +268,28 @@ def rule_lifecycle(prog):
             if set(arms) != {"Request", "Notification", "Response"}:
                 out.add(item, "dispatches on Request/Notification/Response", False, c.loc(loop["sp"]), "found %s" % sorted(arms), ("shape",))
                 continue
+            # (0) every decoded message reaches the dispatch: nothing between the head of the loop and the `match` on the message
+            #     kind leaves the iteration (continue / break / return) - such an exit drops requests without a response
+            disp = None
+            for m_, parents in hir.walk(loop["body"]):
+                if m_.get("k") == "Match" and any((hir.pat_variant(a_["pat"]) or "").startswith("lsp4spl::io::Message::") for a_ in m_["arms"]):
+                    disp = (m_, parents)
+                    break
+            if disp is not None:
+                early = None
+                chain = list(disp[1]) + [disp[0]]
+                for i_, pr in enumerate(chain[:-1]):
+                    if pr.get("k") != "Block":
+                        continue
+                    kids = list(pr["stmts"]) + ([pr["expr"]] if pr.get("expr") else [])
+                    idx = [j for j, k_ in enumerate(kids) if k_ is chain[i_ + 1]]
+                    for k_ in kids[:idx[0]] if idx else []:
+                        for x in hir.nodes(k_):
+                            if x.get("k") in ("Continue", "Break") or (x.get("k") == "Ret"):
+                                early = x
+                out.add(item, "every decoded message reaches the dispatch on its kind", early is None, c.loc((early or loop)["sp"]),
+                        "the iteration is left (`continue`/`break`/`return`) before the message is dispatched: a *request* that takes this "
+                        "exit never gets a response", ("one-response",))
             # (a) every path through the Request arm(s): one split, one into_*, one send, in this order
             ps = []
             for rarm in arms["Request"]:
@@ -293,9 +317,45 @@ def rule_lifecycle(prog):
                     if e[0] == "into" and e[2] != "result":
                         codes.add(e[2])
             rloc = c.loc(arms["Request"][0]["sp"])
-            if name == "initialization":
+            if name == "initialization" and li == 0:
                 out.add(item, "requests before initialize are rejected with ServerNotInitialized",
                         codes == {"ServerNotInitialized"}, rloc, "codes used: %s" % sorted(map(str, codes)), ("codes",))
+            elif name == "initialization":
+                # between the initialize request and the initialized notification: a second initialize is an InvalidRequest, every
+                # other request still finds the server not initialized
+                flat = set(x for cd in codes for x in str(cd).split("|"))
+                cond_ok = False
+                for rarm in arms["Request"]:
+                    defs_ = {}
+                    for l in hir.nodes(rarm["body"], "Let"):
+                        if l["pat"].get("k") == "Binding" and l.get("init") is not None:
+                            defs_[l["pat"]["id"]] = l["init"]
+
+                    def names_initialize(e, depth=0):
+                        for x in hir.nodes(e, "Path"):
+                            d_ = x["res"]
+                            if d_.get("k") == "Def" and method_of(c, x) == "Initialize":
+                                return True
+                            pl_ = hir.path_local(x)
+                            if pl_ and pl_["id"] in defs_ and depth < 3 and names_initialize(defs_[pl_["id"]], depth + 1):
+                                return True
+                        return False
+
+                    for iff in hir.nodes(rarm["body"], "If"):
+                        if names_initialize(iff["cond"]):
+                            th = set(last(p_["res"].get("ctor_of", "")) for p_ in hir.nodes(iff["then"], "Path") if "ErrorCode::" in p_["res"].get("ctor_of", ""))
+                            el = set(last(p_["res"].get("ctor_of", "")) for p_ in hir.nodes(iff.get("else") or {}, "Path") if "ErrorCode::" in p_["res"].get("ctor_of", ""))
+                            cond_ok = th == {"InvalidRequest"} and el == {"ServerNotInitialized"}
+                    for m_ in hir.nodes(rarm["body"], "Match"):
+                        for a_ in m_["arms"]:
+                            pc_ = _pat_const(a_["pat"])
+                            if pc_ and method_of(c, pc_) == "Initialize":
+                                th = set(last(p_["res"].get("ctor_of", "")) for p_ in hir.nodes(a_["body"], "Path") if "ErrorCode::" in p_["res"].get("ctor_of", ""))
+                                if th == {"InvalidRequest"}:
+                                    cond_ok = True
+                out.add(item, "before `initialized`: a second initialize is rejected with InvalidRequest, other requests with ServerNotInitialized",
+                        flat == {"InvalidRequest", "ServerNotInitialized"} and cond_ok, rloc,
+                        "codes used: %s; InvalidRequest tied to method == initialize: %s" % (sorted(flat), cond_ok), ("codes",))
             elif name == "shutdown":
                 out.add(item, "requests after shutdown are rejected with InvalidRequest", codes == {"InvalidRequest"},
                         rloc, "codes used: %s" % sorted(map(str, codes)), ("codes",))
@@ -766,6 +826,36 @@ def rule_broker(prog):
         ok = stored
     out.add("document::broker", "Change stores the updated document", ok, c.loc(arms["Change"]["sp"]), "", ("state",))
     out.add("document::broker", "Close forgets the document", bool(has(arms["Close"], "remove")), c.loc(arms["Close"]["sp"]), "", ("state",))
+    # every per-document map the broker keeps is emptied for a URI when that document is closed
+    def is_url_map(e):
+        t = c.tstr(e["t"])
+        for ad in e.get("adj") or []:
+            t = c.tstr(ad["to"])
+        return ("HashMap<" in t or "BTreeMap<" in t) and "Url" in t.split(",")[0]
+
+    def map_place(e):
+        # the map's identity is its field / local name (`docs`, `self.docs`, `store.docs` are one map seen from different functions)
+        pl_ = place(hir.strip_ref(e)) or ""
+        if not pl_:
+            return None
+        return pl_.rsplit(".", 1)[1] if "." in pl_ else pl_.split("#")[0]
+
+    filled = {}
+    for n in deep(b["body"]):
+        if n.get("k") == "MethodCall" and n["m"] in ("insert", "entry") and is_url_map(n["recv"]):
+            mp = map_place(n["recv"])
+            if mp:
+                filled.setdefault(mp, n)
+    removed = set()
+    for n in deep(arms["Close"]["body"]):
+        if n.get("k") == "MethodCall" and n["m"] in ("remove", "clear", "remove_entry") and is_url_map(n["recv"]):
+            mp = map_place(n["recv"])
+            if mp:
+                removed.add(mp)
+    for mp, n in sorted(filled.items()):
+        out.add("document::broker", "Close removes the closed document's entry from `%s`" % mp, mp in removed, c.loc(n["sp"]),
+                "the broker keeps per-document state in `%s` but the Close arm does not remove the closed URI from it: the state of a closed "
+                "document survives and influences the same URI when it is opened again" % mp, ("state",))
     g = has(arms["GetInfo"], "get")
     s = has(arms["GetInfo"], "send")
     out.add("document::broker", "GetInfo answers from the stored document", bool(g) and bool(s), c.loc(arms["GetInfo"]["sp"]), "", ("state",))
